@@ -11,15 +11,34 @@ from treedrv import bt, np, pd
 FAMILIES = ("prices", "values", "positions", "cash", "fees", "weights", "transactions")
 
 
+FIXED = [False]  # digest fixed-point values (1e-6) instead of raw IEEE patterns
+
+
 def _acc(d, fam, i, key, x):
     x = float(x)
     if x == 0.0 or math.isnan(x):
         return
+    if FIXED[0]:
+        v = round(x * 1e6)
+        if v == 0:
+            return
+        d[fam][i] ^= zlib.crc32(("%s|%d" % (key, v)).encode())
+        return
     d[fam][i] ^= zlib.crc32(("%s|%s" % (key, x.hex())).encode())
 
 
-def digests(b, prog, root=None):
-    """{family: [int per date]} over the dates of b.data (incl. pre-start row)."""
+def digests(b, prog, root=None, fixed=False):
+    """{family: [int per date]} over the dates of b.data (incl. pre-start row).
+    fixed=True: values enter in fixed point (1e-6) - for relations that hold up
+    to floating-point re-association (e.g. another child creation order)."""
+    FIXED[0] = bool(fixed)
+    try:
+        return _digests(b, prog, root)
+    finally:
+        FIXED[0] = False
+
+
+def _digests(b, prog, root=None):
     s = root if root is not None else b.strategy
     idx = s.data.index
     n = len(idx)
